@@ -1,0 +1,48 @@
+//go:build verif
+
+package jobcontroller
+
+// Contracts for fvc (see /verif/DESIGN.md). Comment-only file.
+
+// ---- util.go --------------------------------------------------------------------------------------------
+
+//@ pure deleting(rj *execution.Job) bool = !rj.DeletionTimestamp.IsZero()
+
+//@ func isDeleted
+//@   requires rj != nil
+//@   ensures [C08,C13] result == deleting(rj)
+
+//@ func isFinalized
+//@   requires rj != nil
+//@   ensures [C13] result == (deleting(rj) && !meta.contains(rj.Finalizers, finalizer))
+
+// No task may be created once a kill timestamp exists (even before it passes) or the Job carries an admission error.
+//@ func canCreateTask
+//@   requires rj != nil
+//@   ensures [C08,C12] result == (rj.Spec.KillTimestamp == nil && !(job.LabelKeyAdmissionErrorMessage in rj.Annotations))
+
+//@ pure killDue(rj *execution.Job) bool = rj.Spec.KillTimestamp != nil && !rj.Spec.KillTimestamp.Time.IsZero() && ns(rj.Spec.KillTimestamp.Time) <= clock
+
+// Leftover tasks are killed once the completion strategy is decided: AllSuccessful failed, or AnySuccessful succeeded.
+//@ pure parallelDecidedKill(rj *execution.Job) bool =
+//@     rj.Spec.Template != nil && rj.Spec.Template.Parallelism != nil && rj.Status.ParallelStatus != nil
+//@  && rj.Status.ParallelStatus.Complete && rj.Status.ParallelStatus.Successful != nil
+//@  && ((rj.Spec.Template.Parallelism.CompletionStrategy == "" || rj.Spec.Template.Parallelism.CompletionStrategy == execution.AllSuccessful)
+//@        ? !*rj.Status.ParallelStatus.Successful
+//@        : (rj.Spec.Template.Parallelism.CompletionStrategy == execution.AnySuccessful && *rj.Status.ParallelStatus.Successful))
+
+//@ func shouldKillJobForParallel
+//@   requires rj != nil
+//@   ensures [C10,C12] result == parallelDecidedKill(rj)
+
+//@ func shouldKillJob
+//@   requires rj != nil
+//@   modifies clock
+//@   ensures [C12] never-before-kill-timestamp: result == (killDue(rj) || parallelDecidedKill(rj))
+//@   ensures [C12] clock >= old(clock)
+
+//@ func getJobStateFromCondition
+//@   ensures [C11] result == (condition.Queueing != nil ? execution.JobStateQueued
+//@        : (condition.Waiting != nil ? execution.JobStateWaiting
+//@        : (condition.Running != nil ? execution.JobStateRunning
+//@        : (condition.Finished != nil ? execution.JobStateFinished : execution.JobStateQueued))))
